@@ -5,6 +5,7 @@ import (
 	"fmt"
 	"math"
 	"reflect"
+	"regexp"
 	"strconv"
 	"strings"
 	"time"
@@ -155,6 +156,11 @@ func (r URange) Validate() error {
 	return nil
 }
 
+// DefNaN: InitDefaults sets NaN, which no min / max / positive accepts.
+type DefNaN float64
+
+func (d *DefNaN) InitDefaults() { *d = DefNaN(math.NaN()) }
+
 // WithDefaults: InitDefaults yields an N that is valid under the `validate`
 // tag and invalid under the `check` tag (see ValidatorTag).
 type WithDefaults struct {
@@ -242,6 +248,8 @@ var (
 	tULevel   = reflect.TypeOf(ULevel(0))
 	tUPort    = reflect.TypeOf(UPort(0))
 	tUStr     = reflect.TypeOf(UStr(""))
+	tDefNaN   = reflect.TypeOf(DefNaN(0))
+	tRegexp   = reflect.TypeOf(regexp.Regexp{})
 
 	tWithDefaults    = reflect.TypeOf(WithDefaults{})
 	tWithBadDefaults = reflect.TypeOf(WithBadDefaults{})
